@@ -426,6 +426,12 @@ def correspondence(ctx):
     for op in ("lo", "of", "oc"):
         if not any(c["op"] == op and {"e2e", "owner=broker-0"} <= set(c["feats"].split(",")) for c in cases):
             failures.append(dict(layer="correspondence", what=f"end-to-end {op} case owned by broker 0 was not run through the real Transport", detail="", input=None))
+    # transport-level faults under the real Transport: each kind must have hit a call in which another sub-request succeeded
+    for kind in ("refused", "dropped", "ghost-leader", "hidden-partition"):
+        if not any(c["op"] == "lo" and {"e2e", "fault=" + kind, "some-failed"} <= set(c["feats"].split(",")) for c in cases):
+            failures.append(dict(layer="correspondence", what=f"end-to-end ListOffsets with a {kind} sub-request next to a healthy one was not run", detail="", input=None))
+    if not any(c["op"] == "lo" and {"e2e", "all-failed"} <= set(c["feats"].split(",")) for c in cases):
+        failures.append(dict(layer="correspondence", what="end-to-end ListOffsets with every sub-request failing was not run", detail="", input=None))
     # every stateful Client query must have met every address configuration
     for api in ("ListOffsets", "Metadata", "OffsetFetch", "OffsetCommit", "ConsumerOffsets"):
         for cfg in ("addr=client-only", "addr=request-only", "addr=both-same", "addr=both-different", "addr=neither"):
@@ -444,7 +450,7 @@ def correspondence(ctx):
                      "sub-results = faithful answers (error codes, returned timestamps, tied offsets), failures (none/some/all), adversarial responses (other topics/partitions, empty arrays), "
                      "and Merge on requests not produced by Split incl. fewer/more results than requests. Tier 2: Client.ListOffsets/OffsetFetch/OffsetCommit/ConsumerOffsets/Metadata through a fake RoundTripper "
                      "over generated clusters (1-5 brokers some unreachable, 1-5 topics, 1-6 partitions with log start/end, timestamp index, leader, epoch, per-partition errors, committed offsets per group, commit/fetch errors, "
-                     "unknown topics/partitions, duplicate node ids, unknown/-1 leaders). Tier 2b: two fake clusters with the same topics but different leaders, offsets and committed positions behind one RoundTripper keyed by address; ListOffsets/Metadata/OffsetFetch/OffsetCommit/ConsumerOffsets and 27 other Client methods in the address configurations {client Addr only, request Addr only, both same, both different, neither}: who was asked and whose state came back. Tier 2c (end to end): the same three Client queries through the real Transport against 2-4 wire-level brokers (ids from 0, bootstrap never broker 0), expected outcomes = the owners' answers. Tier 3: Conn.Seek histories of 1..6 steps (all whence values, SeekDontCheck, invalid whence, moving log bounds, boundary and +-1 offsets, "
+                     "unknown topics/partitions, duplicate node ids, unknown/-1 leaders). Tier 2b: two fake clusters with the same topics but different leaders, offsets and committed positions behind one RoundTripper keyed by address; ListOffsets/Metadata/OffsetFetch/OffsetCommit/ConsumerOffsets and 27 other Client methods in the address configurations {client Addr only, request Addr only, both same, both different, neither}: who was asked and whose state came back. Tier 2c (end to end): the same three Client queries through the real Transport against 2-4 wire-level brokers (ids from 0, bootstrap never broker 0), expected outcomes = the owners' answers; plus multi-partition ListOffsets with transport-level faults per sub-request (leader's dial refused, connection dropped on the request, leader id absent from the broker list, partition absent from the metadata; one, several, all): expectation = the model's Merge over the positionally aligned outcomes (healthy partitions report the owners' offsets, the faulty ones carry an error, the call fails only when every sub-request failed). Tier 3: Conn.Seek histories of 1..6 steps (all whence values, SeekDontCheck, invalid whence, moving log bounds, boundary and +-1 offsets, "
                      "int64 extremes, broker errors on the first/second request) plus regression cases (SeekCurrent from the FirstOffset/LastOffset placeholders, leaderless partition in ReadPartitions), ReadFirstOffset/ReadLastOffset/ReadOffset and ReadPartitions (metadata v1 and v6) against a wire-level peer over net.Pipe; ReadPartitions argument shapes {no argument, nil slice, empty non-nil slice (literal, empty config, l[:0]), one topic, several, duplicates} x Conn {with, without topic} x metadata {v1, v6} against a peer that holds a cluster and answers according to the topic array decoded by hand from the raw request frame (null = all topics, empty = none, list = those). "
                      "A case is non-trivial when its feature vector is not a happy-path default (single faithful answer, no failure, plain whence); distinct by hash of op+args",
                 samples=[c["line"][:300] + " | " + c["go"][:120] for c in cases[:2] + cases[len(cases)//3:len(cases)//3+2] + cases[2*len(cases)//3:2*len(cases)//3+2] + cases[-2:]],
